@@ -321,12 +321,14 @@ class Check(core.PropertyCheck):
     def _consts(self, which, tier):
         if which == "single":
             return {"ReqPlans": frozenset(req_plans(tier)), "RespPlans": frozenset(resp_plans(tier)),
-                    "CanonReq": frozenset(CANON_REQ), "CanonResp": frozenset(CANON_RESP), "MaxEx": 1, "Pipeline": False}
+                    "CanonReq": frozenset(CANON_REQ), "CanonResp": frozenset(CANON_RESP), "MaxEx": 1, "Pipeline": False,
+                    "LimChoices": frozenset({False, True})}
         if which == "pairs":
             return {"ReqPlans": frozenset(REQ2), "RespPlans": frozenset(RESP2), "CanonReq": frozenset(REQ2),
-                    "CanonResp": frozenset(RESP2), "MaxEx": 2, "Pipeline": True}
+                    "CanonResp": frozenset(RESP2), "MaxEx": 2, "Pipeline": True, "LimChoices": frozenset({False})}
         return {"ReqPlans": frozenset(REQ3), "RespPlans": frozenset(RESP3), "CanonReq": frozenset(REQ3),
-                "CanonResp": frozenset(RESP3), "MaxEx": 2 if which == "pairs_big" else 3, "Pipeline": True}
+                "CanonResp": frozenset(RESP3), "MaxEx": 2 if which == "pairs_big" else 3, "Pipeline": True,
+                "LimChoices": frozenset({False, True})}
 
     def model_constants(self, tier):
         return self._consts("single", tier)
@@ -373,7 +375,10 @@ class Check(core.PropertyCheck):
                 if ed[1] != "none":
                     edits["%d:response" % tag] = ed[1]
             prev = st
-        return {"steps": steps, "edits": edits}
+        out = {"steps": steps, "edits": edits}
+        if beh[0][2].get("lim") is True:
+            out["options"] = {"stream_large_bodies": "6"}
+        return out
 
     def scenarios(self, ctx, models):
         rng = random.Random(ctx.seed + 1)
